@@ -153,7 +153,13 @@ fn inspect(out: &mut impl Write, root: &str, brief: bool) {
             if !path.is_file() {
                 continue;
             }
-            writeln!(out, "FRAG {tag} {id}").unwrap();
+            // the inode tells an interrupted rollover (backup linked, MANIFEST not yet replaced) from two
+            // fragments with equal contents
+            let ino = {
+                use std::os::unix::fs::MetadataExt;
+                std::fs::metadata(&path).map(|m| m.ino()).unwrap_or(0)
+            };
+            writeln!(out, "FRAG {tag} {id} {ino}").unwrap();
             match mani::ManifestIterator::open(&path) {
                 Ok(it) => {
                     for edit in it {
